@@ -889,6 +889,15 @@ package sio
 //@   ensures (old(socket.namespace) in s.sockets) && s.sockets[old(socket.namespace)] == socket [C05.store.cli.set]
 //@   ensures forall k string :: k != old(socket.namespace) ==> (k in s.sockets) == old(k in s.sockets) && s.sockets[k] == old(s.sockets[k]) [C05.store.cli.set.frame]
 
+// Conditional insertion, one critical section: an existing entry is never overwritten, and the caller gets the socket
+// that the namespace has afterwards.
+//@ func (*clientSocketStore).setIfAbsent
+//@   requires s.sockets != nil && socket != nil
+//@   modifies mapof(s.sockets)
+//@   ensures (old(socket.namespace) in s.sockets) && s.sockets[old(socket.namespace)] == result [C05.store.cli.setifabsent.result.is.the.stored.one]
+//@   ensures old(socket.namespace in s.sockets) ==> result == old(s.sockets[socket.namespace]) [C05.store.cli.setifabsent.keeps.the.existing.socket]
+//@   ensures !old(socket.namespace in s.sockets) ==> result == socket [C05.store.cli.setifabsent.stores.the.new.one]
+//@   ensures forall k string :: k != old(socket.namespace) ==> (k in s.sockets) == old(k in s.sockets) && s.sockets[k] == old(s.sockets[k]) [C05.store.cli.setifabsent.frame]
 //@ func (*clientSocketStore).remove
 //@   requires s.sockets != nil
 //@   modifies mapof(s.sockets)
@@ -1635,7 +1644,9 @@ package sio
 //@   requires m != nil && m.sockets != nil && m.sockets.sockets != nil && cstoreOK(m)
 //@   ensures cstoreOK(m) [C05.manager.store.keyed.by.namespace]
 //@   callsite (*clientSocketStore).set
-//@     requires arg0 != nil && !(arg0.namespace in m.sockets.sockets) [C05.manager.one.socket.per.namespace]
+//@     requires false [C05.manager.never.overwrites.a.routing.entry]
+//@   callsite (*clientSocketStore).setIfAbsent
+//@     requires arg0 != nil && recv == m.sockets [C05.manager.one.socket.per.namespace]
 //@     requires len(arg0.namespace) >= 1 && arg0.namespace[0] == 47 [C05.manager.stores.canonical.name]
 //@     requires old(namespace) == "" ==> arg0.namespace == "/" [C05.manager.empty.name.is.root]
 //@     requires len(old(namespace)) >= 1 && old(namespace)[0] == 47 ==> arg0.namespace == old(namespace) [C05.manager.canonical.name.kept]
